@@ -1,8 +1,10 @@
 package headers
 
 import (
+	"errors"
 	"fmt"
 	"log/slog"
+	"math"
 	"strconv"
 	"strings"
 	"time"
@@ -31,6 +33,9 @@ func parseCacheControl(ccHeader string) (cacheControl, error) {
 		} else if after, ok := strings.CutPrefix(directive, "max-age="); ok {
 			// max-age directive specifies the maximum amount of time a response is considered fresh in seconds.
 			maxAge, err := strconv.ParseInt(after, 10, 64)
+			if errors.Is(err, strconv.ErrRange) && maxAge > 0 {
+				err = nil // Too large for an int64: ParseInt returns the largest one, which is capped below
+			}
 			if err != nil {
 				// Keep going so that the other directives are still seen; a response
 				// whose freshness cannot be determined is not cached.
@@ -45,6 +50,9 @@ func parseCacheControl(ccHeader string) (cacheControl, error) {
 				slog.Debug("max-age is less than 1 second, treating as no-cache", "raw", directive)
 				continue
 			}
+			// A lifetime longer than a Duration can hold means "forever" (RFC 9111 section 1.2.2): cap it
+			// instead of letting the multiplication overflow into a negative lifetime.
+			maxAge = min(maxAge, int64(math.MaxInt64/time.Second))
 			cc.maxAge = time.Duration(maxAge) * time.Second
 		}
 	}
